@@ -154,6 +154,8 @@ def generate(ck):
         else:
             descs.append(dict(base, kind="malformed", which=int(rng.integers(0, 6))))
     descs.append({"kind": "python-O", "curve": "ideal", "M": 1.0, "tau": 1.0, "end": 1.0, "n": 50, "t0": 0.0})
+    for cv in ("ideal", "fourier", "cubic-table"):
+        descs.append({"kind": "never-produced", "curve": cv, "M": 0.0, "tau": 1.0, "end": 1.0, "n": 60, "t0": 0.0})
     return descs
 
 
@@ -188,6 +190,30 @@ def run_case(ck, desc):
             else:
                 ck.count(f"rejections.python-O.{o[7:]}")
         return True, {"snippets": len(snips)}
+    if kind == "never-produced":
+        # a well that never produced (cumulative production identically zero): the fitted values still lie
+        # inside the configured bounds, a supplied tau is returned unchanged, M is the bounded optimum
+        # (its lower limit)
+        f0 = curve(desc["curve"])
+        t0_ = np.linspace(1.0, 360.0, 60)
+        for Mb_, tb_, tau_s_ in (((10.0, 1e4), (1.0, 500.0), None), ((10.0, 1e4), (1.0, 500.0), 120.0), ((25.0, np.inf), (0.5, np.inf), 120.0), ((25.0, np.inf), (0.5, np.inf), None), ((0.0, np.inf), (1e-10, np.inf), 77.0)):
+            fo_ = ForecasterOnePhase(f0, Bounds(M=Mb_, tau=tb_))
+            try:
+                with warnings.catch_warnings():
+                    warnings.simplefilter("ignore")
+                    fo_.fit(t0_, np.zeros(60), tau=tau_s_)
+            except Exception as e:  # noqa: BLE001
+                ck.count(f"never_produced_fit_raised.{type(e).__name__}")
+                continue
+            _drain()
+            if not (Mb_[0] <= fo_.M_ <= Mb_[1]) or not (tb_[0] <= fo_.tau_ <= tb_[1] or tau_s_ is not None):
+                ck.violation("fitted-M-inside-bounds", {"record": "identically zero", "M_": float(fo_.M_), "tau_": float(fo_.tau_), "bounds": [list(Mb_), list(tb_)], "tau_supplied": tau_s_}, desc)
+            if tau_s_ is not None and fo_.tau_ != tau_s_:
+                ck.violation("supplied-tau-returned-unchanged", {"tau_": float(fo_.tau_), "supplied": tau_s_, "record": "identically zero"}, desc)
+            if tau_s_ is not None and Mb_[0] > 0 and abs(fo_.M_ / Mb_[0] - 1) > 1e-4:
+                ck.violation("bounded-least-squares-optimum", {"record": "identically zero", "M_": float(fo_.M_), "closed_form": Mb_[0]}, desc)
+            ck.count("fits_of_a_well_that_never_produced")
+        return True, {"fits": 5}
     if kind == "malformed":
         bad = [
             lambda: Bounds(M=(1, 2, 3), tau=(0, 1)),
